@@ -9,7 +9,7 @@ from .guardlib import gval, comparisons, lt_true, ge_true
 
 MANIFEST = {
     "text": "Finite-domain and ordering rules on the XML tree builder's namespace machinery: over phase x tag kind x is-script the predicate under which process_namespaces pushes a scope equals the predicate under which the same step arm pushes an open element, and pop() removes one scope and one element together and is the only remover; find_uri searches innermost-first and stops at the first binding (un-binding included); declarations are processed before any name of the tag is bound; the tokenizer drops an attribute only when an earlier one has the same qualified name and the tree builder only on equal expanded names after binding. Plus reviewed normal forms of the tree builder, qname.rs and the tokenizer's attribute functions.",
-    "note": "Decides R16.1-R16.5. Not decided: which element an end tag closes in error recovery (balanced by R16.1, dynamic otherwise). Also decided: current_namespace is emptied on every path of process_namespaces (R16.3); the tokenizer never permutes a tag's attribute list (R16.4). Round 6: finish_attribute empties the value buffer (R16.7), attributes dropped only as duplicates (R16.8). Round 8: which attributes are namespace declarations, as truth tables of both filter predicates of process_namespaces over (prefix, local), complements (F28, R16.10); the fixed prefixes xml / xmlns are never stored (R16.11); no attribute value without a name (F30, R16.12).",
+    "note": "Decides R16.1-R16.5. Not decided: which element an end tag closes in error recovery (balanced by R16.1, dynamic otherwise). Also decided: current_namespace is emptied on every path of process_namespaces (R16.3); the tokenizer never permutes a tag's attribute list (R16.4). Round 6: finish_attribute empties the value buffer (R16.7), attributes dropped only as duplicates (R16.8). Round 8: which attributes are namespace declarations, as truth tables of both filter predicates of process_namespaces over (prefix, local), complements (F28, R16.10); the fixed prefixes xml / xmlns are never stored (R16.11); no attribute value without a name (F30, R16.12). R16.13: duplicate key = expanded name; bind_qname writes only the namespace.",
     "technique": "finite-domain predicate equality + ordering rules over function normal forms",
 }
 LEVEL = "other"
